@@ -48,6 +48,25 @@ def macro_values(prog, names, headers=None):
         return _cache[key]
     # macros private to a .c file: plain integer bodies only
     defs = defined_macros(prog)
+    # a requested name the tree no longer defines: renamed macro (same file, same replacement text, per ref/schema.json), or a
+    # constant that is now an enumerator / a static const of the same name
+    from . import schema as _schema
+    alias, direct = {}, {}
+    for nm in list(names):
+        if nm in defs:
+            continue
+        a = _schema.macro_alias(nm, defs)
+        if a is not None:
+            alias[a] = nm
+            names[names.index(nm)] = a
+        elif nm in prog.enums:
+            direct[nm] = prog.enums[nm]
+            names.remove(nm)
+        elif nm in prog.globals:
+            v = ConstEval(prog).try_eval({"kind": "DeclRefExpr", "referencedDecl": {"kind": "VarDecl", "name": nm, "id": prog.globals[nm].get("id")}})
+            if v is not None:
+                direct[nm] = v
+                names.remove(nm)
     local = {}
     for nm in list(names):
         d = defs.get(nm)
@@ -100,6 +119,11 @@ def macro_values(prog, names, headers=None):
                 raise AnalysisBroken("macro %s is not an integer constant: %s" % (n["name"][6:], e))
             vals[n["name"][6:]] = v
     vals.update(local)
+    for a, nm in alias.items():
+        if a in vals:
+            vals[nm] = vals[a]
+    vals.update(direct)
+    names = [alias.get(nm, nm) for nm in names]
     missing = [nm for nm in names if nm not in vals]
     if missing:
         raise AnalysisBroken("macros not defined (anchor vanished): %s" % missing)
